@@ -332,21 +332,34 @@ class Client:
                     L = len(reader)
                     form = call["form"]
                     req = [(L, 1), (-1, 1), (0, -1), (L - 1 if L else 0, 3), (L + 5, 0), None][form]
-                    try:
-                        if req is None:
-                            if reader.start_time is not None:
-                                reader.offset_at(reader.time_at(L + 2))
-                            else:
-                                reader.offset_at(reader.time_at(L + 2, unit=u.s))
-                        else:
+                    returned = False
+                    if req is None:
+                        # times of the positions just outside both ends, absolute and relative
+                        # (no extra draw: all of them, every time)
+                        for k in (L + 2, L + 1, -1, -2):
+                            for rel in (False, True):
+                                if not rel and reader.start_time is None:
+                                    continue
+                                tq = reader.time_at(k, unit=u.s) if rel else reader.time_at(k)
+                                try:
+                                    reader.offset_at(tq)
+                                    returned = True
+                                    req = f"offset_at(time_at({k}{', unit=s' if rel else ''}))"
+                                except (ValueError, EOFError):
+                                    pass
+                                if returned:
+                                    break
+                            if returned:
+                                break
+                    else:
+                        try:
                             reader.read(*req)
-                        returned = True
-                    except (ValueError, EOFError):
-                        returned = False
+                            returned = True
+                        except (ValueError, EOFError):
+                            pass
                     if returned:
                         ctx.violate("out-of-range-accepted", f"{model.rs['cls']}.bounds",
-                                    f"{who}: request {req if req else 'offset_at(time_at(len+2))'} "
-                                    f"outside [0, {L}] did not raise")
+                                    f"{who}: request {req} outside [0, {L}] did not raise")
                     ctx.probe("out_of_range_rejected")
                     self.rec(ci, kind, ri, None, None, "rejected")
                 elif kind == "concat":
